@@ -44,7 +44,7 @@ CLAIMS = {
    note="Assumed (trusted, deterministic, read-only): DeriveSha, IntermediateRoot, ETXRoot, GetQuaiTrieSize, MultiSet.Hash, UncledLogEntropy, CopyHeader field equality. Determinism of re-execution itself (Process as a function of parent state and block) is not decided.",
    design="4 (C07)", technique="contract-based deductive verification: accept => equality clauses per exit, VCs from go/ssa, z3/cvc5"),
  "C09": dict(
-   text="P-accept contract on the real HeaderChain.verifyHeader (187 blocks, 68 exits): a nil result implies header.Time >= parent.Time, for non-uncles header.Time <= now + 15 s, header.Number(ctx) == (genesis parent ? 0 : parent.Number(ctx)) + 1 in the node's context, and in a zone gasUsed <= gasLimit and stateUsed <= stateLimit; TotalLogEntropy writes to no pre-existing number (frame 'modifies nothing' discharged on the real function).",
+   text="P-accept contract on the real HeaderChain.verifyHeader (187 blocks, 68 exits): a nil result implies header.Time >= parent.Time, for non-uncles header.Time <= now + 15 s, header.Number(ctx) == (genesis parent ? 0 : parent.Number(ctx)) + 1 in the node's context, and in a zone gasUsed <= gasLimit, stateUsed <= stateLimit and gasLimit equals the protocol rule of (parent number, parent gas limit, ceiling) - the rule itself is proved for CalcGasLimit and CalcStateLimit (nothing for the first TimeToStartTx blocks, the minimum right after, a linear ramp for two months, the ceiling afterwards); TotalLogEntropy writes to no pre-existing number (frame 'modifies nothing' discharged on the real function).",
    note="Assumed (trusted frames/contracts): CalcOrder, WorkShareLogEntropy, IsGenesisHash, NodeLocation (length is a function of the chain object), database readers GetHeaderByHash/GetBlock/GetBlockByHash/GetBlockNumber and ComputeExpansionNumber touch only caches, WorkObject.Hash is a function of the header object within one call. Not under contract: the entropy accumulation formulas (DeltaLogEntropy, UncledDeltaLogEntropy), difficulty/gas-limit/base-fee conjuncts, fork choice.",
    design="4 (C09)", technique="contract-based deductive verification: accept => conjunct clauses per exit on a large function with trusted callee frames, VCs from go/ssa, z3/cvc5"),
  "C13": dict(
